@@ -23,6 +23,7 @@ def tok_str(q, names=True):
 def _nm(r):
     if isinstance(r, (bytes, bytearray)): return r.decode()
     if type(r) is SliceRef: return bytes(r.items()).decode()
+    if type(r) is Enum: return r.var
     return str(r)
 
 
@@ -40,7 +41,7 @@ def vm_queue(ps):
     out = []
     for t in queue_view(ps):
         if t[0] == "S": out.append(("S", t[1], t[2]))
-        else: out.append(("E", t[1], bytes(t[2].items()), t[3], t[4]))
+        else: out.append(("E", t[1], _nm(t[2]).encode(), t[3], t[4]))
     return out
 
 
